@@ -51,10 +51,9 @@ CONSTANTS
     MaxSteps, MaxRuns, MaxRecs,
     Modes,        \* subset of {"same","edit","free"}
     EditKinds,    \* subset of {"sent","drop","add","swap","result","raise"}
-    FreeOpts,     \* set of option records for free-mode input calls
-    FreeOutOpts,  \* set of option records for free-mode output calls
-    UnknownIds,   \* subset of BOOLEAN: may play() be asked for an id that was never saved
-    Threads,      \* thread ids that may make intercepted calls (0 = the operation's own thread)
+    InOpts,       \* sequence of option records for free-mode input calls
+    OutOpts,      \* sequence of option records for free-mode output calls
+    PlayFaults,   \* subset of {"unknown", "raise"}: play() of an id never saved / playback function raising
     FixF1, FixF2, FixF3, FixF10
 
 VARIABLES rec, cas, ctl, prog, ev
@@ -67,13 +66,16 @@ NoClass    == [name |-> "", rate |-> "one", ignoreForce |-> FALSE, skipped |-> F
 Recs       == 1 .. MaxRecs
 OpKey      == <<"op", "op", 1>>
 
-Step0 == [kind |-> "", th |-> 0, alias |-> "", arg |-> 0, sent |-> "", body |-> "", res |-> None2,
-          fault |-> "none", opts |-> [fb |-> <<>>, runOrig |-> FALSE, subst |-> "none", failMissing |-> TRUE],
-          seen |-> None2]
+\* opt = 0: decorator defaults; opt = i > 0: the i-th record of InOpts (input calls) / OutOpts (output calls)
+Step0 == [kind |-> "", alias |-> "", arg |-> 0, sent |-> "", body |-> "", res |-> None2, fault |-> "none",
+          opt |-> 0, seen |-> None2]
+DefaultOpts == [fb |-> <<>>, runOrig |-> FALSE, subst |-> "none", failMissing |-> TRUE]
+InOptsOf(st)  == IF st.opt = 0 THEN DefaultOpts ELSE InOpts[st.opt]
+OutOptsOf(st) == IF st.opt = 0 THEN DefaultOpts ELSE OutOpts[st.opt]
 
 Ev0 == [kind |-> "init", step |-> Step0, seen |-> None2, bodyRuns |-> 0, calls |-> <<>>, icpt |-> FALSE,
         cls |-> "", rid |-> 0, decision |-> "", draw |-> "", extractor |-> "", saveFails |-> FALSE,
-        mode |-> "", pbOut |-> <<>>, recOut |-> <<>>, keys |-> {}, freq |-> FALSE]
+        mode |-> "", pbOut |-> <<>>, keys |-> {}, freq |-> FALSE]
 
 Put(d, k, e) == [kk \in (DOMAIN d) \cup {k} |-> IF kk = k THEN e ELSE d[kk]]
 
@@ -137,7 +139,7 @@ OpEnter(c) ==
                             !.calls = IF records THEN <<"create">> ELSE <<>>]
 
 \* effect of the wrapped body of an input (before its outcome is handed back to the recorder)
-BodyEffect(S, b, th) ==
+BodyEffect(S, b) ==
     CASE b = "discards" -> Disc(S)
       [] b = "forces"   -> Forc(S)
       [] b = "nestOther" ->  \* the body calls InnerCall on another thread: not suppressed there
@@ -146,7 +148,7 @@ BodyEffect(S, b, th) ==
 
 BodyOutcome(c, b) == IF b = "interrupt" THEN <<"int", "BI">> ELSE World[c]
 
-CallInput(th, c, b, f) ==
+CallInput(c, b, f) ==
     /\ ctl.phase = "op" /\ ctl.steps < MaxSteps
     /\ f \in {"prepFail"} => c[1] \in Handlers
     /\ LET S0   == [r |-> rec, c |-> cas, calls |-> <<>>]
@@ -154,7 +156,7 @@ CallInput(th, c, b, f) ==
            f1   == IF icpt THEN f ELSE "none"
            S1   == IF f1 = "keyFail" THEN Disc(S0) ELSE S0
            keyOK == icpt /\ f1 # "keyFail"
-           S2   == BodyEffect(S1, b, th)
+           S2   == BodyEffect(S1, b)
            bo   == BodyOutcome(c, b)
            \* pinned design: a recording discarded by the body makes the recorder fail (F2)
            broken == ~FixF2 /\ keyOK /\ ~S2.r.active /\ bo[1] \in {"val", "exc"}
@@ -163,7 +165,7 @@ CallInput(th, c, b, f) ==
                    ELSE IF f1 = "prepFail" THEN Disc(S2)
                    ELSE Wr(S2, InKey(c), bo)
            seen == IF broken THEN <<"err", "FrameworkError">> ELSE bo
-           st   == [Step0 EXCEPT !.kind = "in", !.th = th, !.alias = c[1], !.arg = c[2], !.body = b, !.fault = f1,
+           st   == [Step0 EXCEPT !.kind = "in", !.alias = c[1], !.arg = c[2], !.body = b, !.fault = f1,
                                  !.seen = seen]
        IN
        /\ f # "none" => icpt          \* faults only matter while recording
@@ -176,7 +178,7 @@ CallInput(th, c, b, f) ==
        /\ ev' = [Ev0 EXCEPT !.kind = "in", !.step = st, !.seen = seen, !.bodyRuns = 1, !.calls = S3.calls,
                             !.icpt = icpt, !.keys = DOMAIN S3.r.data]
 
-CallOutput(th, o, v, res, f) ==
+CallOutput(o, v, res, f) ==
     /\ ctl.phase = "op" /\ ctl.steps < MaxSteps
     /\ f = "prepFail" => o \in Handlers
     /\ LET S0   == [r |-> rec, c |-> cas, calls |-> <<>>]
@@ -189,7 +191,7 @@ CallOutput(th, o, v, res, f) ==
                    ELSE Wr(S1, OutKey(o, n), <<"sent", v>>)
            still == icpt /\ InRecMode(S2.r)
            S3   == IF still /\ res[1] \in {"val", "exc"} THEN Wr(S2, ResKey(o, n), res) ELSE S2
-           st   == [Step0 EXCEPT !.kind = "out", !.th = th, !.alias = o, !.sent = v, !.res = res, !.fault = f1,
+           st   == [Step0 EXCEPT !.kind = "out", !.alias = o, !.sent = v, !.res = res, !.fault = f1,
                                  !.seen = res]
        IN
        /\ f # "none" => icpt
@@ -299,8 +301,7 @@ PlayStart(r, mode) ==
            se == cas.store[r].end
        IN
        /\ mode \in {"same", "edit"} => ~cas.store[r].meta.incomplete
-       /\ \E q \in (IF mode = "edit" THEN {x \in Edits(sp, se) : x # <<sp, se>>}
-                    ELSE {<<IF mode = "same" THEN sp ELSE <<>>, se>>}) :
+       /\ \E q \in (IF mode = "edit" THEN {x \in Edits(sp, se) : x # <<sp, se>>} ELSE {<<<<>>, se>>}) :
             ctl' = [ctl EXCEPT !.phase = "play", !.runs = @ + 1, !.mode = mode, !.rprog = q[1], !.rend = q[2],
                                !.pidx = 1, !.steps = 0, !.failed = FALSE]
     /\ rec' = [rec EXCEPT !.pbRec = r, !.pbOut = <<>>]
@@ -309,10 +310,18 @@ PlayStart(r, mode) ==
 
 \* play() with an id that was never saved: NoSuchRecording, nothing else happens (after F3)
 PlayUnknown ==
-    /\ ctl.phase = "idle" /\ ctl.runs < MaxRuns /\ TRUE \in UnknownIds
+    /\ ctl.phase = "idle" /\ ctl.runs < MaxRuns /\ "unknown" \in PlayFaults
     /\ ctl' = [ctl EXCEPT !.runs = @ + 1]
     /\ ev' = [Ev0 EXCEPT !.kind = "playunknown", !.calls = <<"get">>,
                          !.seen = IF FixF3 THEN <<"err", "NoSuchRecording">> ELSE <<"err", "FrameworkError">>]
+    /\ UNCHANGED <<rec, cas, prog>>
+
+\* the playback function raises before it reaches the operation: play() lets it through and resets
+PlayRaise(r) ==
+    /\ ctl.phase = "idle" /\ ctl.runs < MaxRuns /\ "raise" \in PlayFaults
+    /\ r \in DOMAIN cas.store
+    /\ ctl' = [ctl EXCEPT !.runs = @ + 1]
+    /\ ev' = [Ev0 EXCEPT !.kind = "playraise", !.rid = r, !.calls = <<"get">>, !.seen = <<"exc", "E2">>]
     /\ UNCHANGED <<rec, cas, prog>>
 
 Stored == cas.store[rec.pbRec]
@@ -337,15 +346,18 @@ OutPolicy(o, n, opts, d) ==
     ELSE IF opts.failMissing THEN <<"err", "RecordingKeyError">>
     ELSE <<"dflt", "d">>
 
+\* the replayed program: the stored one ("same": not copied into ctl to keep states small) or its edit
+RProg == IF ctl.mode = "same" THEN Stored.prog ELSE ctl.rprog
+
 \* the next step of the replayed program: read from rprog (same / edit) or arbitrary (free)
 NextSteps ==
     IF ctl.phase # "play" THEN {}
     ELSE IF ctl.mode = "free"
-    THEN {[Step0 EXCEPT !.kind = "in", !.alias = c[1], !.arg = c[2], !.opts = op] : c \in InCalls, op \in FreeOpts}
-         \cup {[Step0 EXCEPT !.kind = "out", !.alias = o, !.sent = v, !.opts = op] :
-                  o \in OutAliases, v \in Vals, op \in FreeOutOpts}
+    THEN {[Step0 EXCEPT !.kind = "in", !.alias = c[1], !.arg = c[2], !.opt = i] : c \in InCalls, i \in 1 .. Len(InOpts)}
+         \cup {[Step0 EXCEPT !.kind = "out", !.alias = o, !.sent = v, !.opt = i] :
+                  o \in OutAliases, v \in Vals, i \in 1 .. Len(OutOpts)}
          \cup {[Step0 EXCEPT !.kind = k] : k \in Ctl}
-    ELSE IF ctl.pidx <= Len(ctl.rprog) THEN {ctl.rprog[ctl.pidx]} ELSE {}
+    ELSE IF ctl.pidx <= Len(RProg) THEN {RProg[ctl.pidx]} ELSE {}
 
 PStep(st) ==
     /\ ctl.phase = "play" /\ ~ctl.failed
@@ -354,9 +366,10 @@ PStep(st) ==
     /\ LET d == Stored.data IN
        CASE st.kind = "in" ->
               LET c    == <<st.alias, st.arg>>
-                  seen == InPolicy(c, st.opts, d)
-                  ran  == FirstPresent(<<InKey(c)>> \o [i \in 1 .. Len(st.opts.fb) |-> <<"in", st.opts.fb[i], c[2]>>], d) = 0
-                          /\ st.opts.runOrig
+                  op   == InOptsOf(st)
+                  seen == InPolicy(c, op, d)
+                  ran  == FirstPresent(<<InKey(c)>> \o [i \in 1 .. Len(op.fb) |-> <<"in", op.fb[i], c[2]>>], d) = 0
+                          /\ op.runOrig
               IN
               /\ rec' = rec
               /\ ctl' = [ctl EXCEPT !.pidx = @ + 1, !.steps = @ + 1, !.failed = seen[1] = "err"]
@@ -364,7 +377,7 @@ PStep(st) ==
                                    !.icpt = TRUE, !.mode = ctl.mode, !.rid = rec.pbRec]
          [] st.kind = "out" ->
               LET n    == rec.cnt[st.alias] + 1
-                  seen == OutPolicy(st.alias, n, st.opts, d)
+                  seen == OutPolicy(st.alias, n, OutOptsOf(st), d)
               IN
               /\ rec' = [rec EXCEPT !.cnt[st.alias] = n, !.pbOut = Append(@, <<OutKey(st.alias, n), st.sent>>)]
               /\ ctl' = [ctl EXCEPT !.pidx = @ + 1, !.steps = @ + 1, !.failed = seen[1] = "err"]
@@ -384,7 +397,7 @@ PStep(st) ==
 POpEnd(out) ==
     /\ ctl.phase = "play"
     /\ \/ ctl.failed /\ out = <<"err", "RecordingKeyError">>
-       \/ ~ctl.failed /\ ctl.mode \in {"same", "edit"} /\ ctl.pidx > Len(ctl.rprog) /\ out = ctl.rend
+       \/ ~ctl.failed /\ ctl.mode \in {"same", "edit"} /\ ctl.pidx > Len(RProg) /\ out = ctl.rend
        \/ ~ctl.failed /\ ctl.mode = "free" /\ out \in ({<<"val", v>> : v \in Vals} \cup {<<"exc", x>> : x \in Excs})
     /\ rec' = IF out[1] \in {"val", "exc"} THEN [rec EXCEPT !.pbOut = Append(@, <<OpKey, out[2]>>)] ELSE rec
     /\ ctl' = [ctl EXCEPT !.phase = "pfin", !.end = out]
@@ -401,7 +414,6 @@ PlayEnd ==
     /\ ev' = [Ev0 EXCEPT !.kind = "playend", !.rid = rec.pbRec, !.mode = ctl.mode,
                          !.seen = IF ctl.end[1] \in {"val", "exc"} THEN <<"ok", "Playback">> ELSE ctl.end,
                          !.pbOut = rec.pbOut,
-                         !.recOut = Stored.data,
                          !.keys = RecordedOut(Stored.data)]
     /\ UNCHANGED <<cas, prog>>
 
@@ -411,8 +423,8 @@ Outs == {<<"val", v>> : v \in Vals} \cup {<<"exc", x>> : x \in Excs}
 Next ==
     \/ Toggle
     \/ \E c \in Classes : OpEnter(c)
-    \/ \E th \in Threads, c \in InCalls, b \in Bodies, f \in InFaults : CallInput(th, c, b, f)
-    \/ \E th \in Threads, o \in OutAliases, v \in Vals, res \in OutResults, f \in OutFaults : CallOutput(th, o, v, res, f)
+    \/ \E c \in InCalls, b \in Bodies, f \in InFaults : CallInput(c, b, f)
+    \/ \E o \in OutAliases, v \in Vals, res \in OutResults, f \in OutFaults : CallOutput(o, v, res, f)
     \/ \E k \in Ctl : Control(k)
     \/ \E out \in Outs \cup {<<"int", "BI">>} :
           /\ (out[1] = "val" => "ret" \in Ends) /\ (out[1] = "exc" => "raise" \in Ends)
@@ -421,6 +433,7 @@ Next ==
     \/ \E d \in Draws, x \in Extractors, sf \in SaveFails : Finalise(d, x, sf)
     \/ \E r \in Recs, m \in Modes : PlayStart(r, m)
     \/ PlayUnknown
+    \/ \E r \in Recs : PlayRaise(r)
     \/ \E st \in NextSteps : PStep(st)
     \/ \E out \in Outs \cup {<<"err", "RecordingKeyError">>} : POpEnd(out)
     \/ PlayEnd
@@ -462,8 +475,8 @@ ReplayPure == [][ctl.phase \in {"play", "pfin"} => cas' = cas]_vars
 NoSilentInvention ==
     ev.kind \in {"pin", "pout"} =>
         \/ ev.seen[1] \in {"val", "exc"}      \* recorded outcome, or run-original
-        \/ ev.seen[1] = "sub" /\ ev.step.opts.subst # "none"
-        \/ ev.seen[1] = "dflt" /\ ~ev.step.opts.failMissing
+        \/ ev.seen[1] = "sub" /\ InOptsOf(ev.step).subst # "none"
+        \/ ev.seen[1] = "dflt" /\ ~OutOptsOf(ev.step).failMissing
         \/ ev.seen[1] = "err"
 
 \* C01: replaying the unchanged program gives every call what it got while recording
@@ -493,7 +506,7 @@ Affected(p, pe, q, qe) ==
 OutputsExact ==
     (PfinOK /\ ctl.mode \in {"same", "edit"}) =>
         \A k \in AllOutKeys \cup {OpKey} :
-            (Got(rec.pbOut, k) # GotRec(Stored.data, k)) <=> (k \in Affected(Stored.prog, Stored.end, ctl.rprog, ctl.rend))
+            (Got(rec.pbOut, k) # GotRec(Stored.data, k)) <=> (k \in Affected(Stored.prog, Stored.end, RProg, ctl.rend))
 OneEntryPerCall ==
     \A i, j \in 1 .. Len(rec.pbOut) : rec.pbOut[i][1] = rec.pbOut[j][1] => i = j
 
